@@ -1220,6 +1220,8 @@ def run(ctx: Ctx):
     if min(len(v) for v in registries.values()) < 10:
         raise AnalysisError("embedding registries not found")
     torchrl_step_on_a_copy(ctx)
+    mask_rows_decided_per_instance(ctx)
+    subclass_switches_take_effect(ctx)
     for cname, (path, family) in T.ENVS.items():
         env = EnvA(ctx.repo, path, cname)
         rule_a(ctx, env, family)
@@ -1253,6 +1255,58 @@ def run(ctx: Ctx):
                 s_ = env.slot(nm)
                 ctx.fn(s_.fi)
                 units.obligations(ctx, "C01.u", f"{cname}.{nm}", s_.it, s_.fr, s_.where, floor)
+
+
+def subclass_switches_take_effect(ctx: Ctx):
+    """C01.v an environment variant that differs from its parent by a class-level switch (SPCTSPEnv._stochastic = True over
+    PCTSPEnv._stochastic = False: which prize the step accumulates and the mask / checker compare) really gets its value: no
+    class on its MRO assigns the same name on `self` in a method -- an instance attribute written by the parent's __init__
+    shadows the subclass's class attribute, and the variant silently behaves like its parent.  All classes under rl4co/envs
+    that re-declare a class attribute of an in-repo ancestor (or declare one an ancestor's method assigns on self)."""
+    import ast
+    n = 0
+    for mi in ctx.repo.modules.values():
+        if not mi.relpath.startswith("rl4co/envs/"):
+            continue
+        for ci in mi.classes.values():
+            anc = [c for c in ctx.repo.mro(ci)[1:] if hasattr(c, "methods")]
+            if not anc or not ci.class_attrs:
+                continue
+            for name in ci.class_attrs:
+                if name.startswith("__"):
+                    continue
+                declared_above = any(name in a.class_attrs for a in anc)
+                writers = []
+                for a in anc:
+                    for m in a.methods.values():
+                        for st in ast.walk(m.node):
+                            tg = []
+                            if isinstance(st, ast.Assign):
+                                tg = st.targets
+                            elif isinstance(st, (ast.AugAssign, ast.AnnAssign)):
+                                tg = [st.target]
+                            for t in tg:
+                                if isinstance(t, ast.Attribute) and isinstance(t.value, ast.Name) and t.value.id == "self" and t.attr == name:
+                                    writers.append(f"{a.name}.{m.node.name}")
+                if not declared_above and not writers:
+                    continue
+                n += 1
+                ctx.ob("C01.v", f"{ci.name}.{name}:class-level-switch-takes-effect", not writers, f"{mi.relpath}:{ci.node.lineno}",
+                       f"{ci.name}.{name} is read through the class" if not writers else
+                       f"{sorted(set(writers))} assign self.{name}: the instance attribute shadows {ci.name}.{name}, the variant runs with its parent's value",
+                       construct=f"{ci.name}.{name}:shadowed-by-instance-attribute")
+    if n < 1:
+        raise AnalysisError("no class-level switch re-declared by an environment subclass was found (SPCTSPEnv._stochastic expected)")
+
+
+def mask_rows_decided_per_instance(ctx: Ctx):
+    """C01.w the mask and the done flag of the routing environments are computed row by row: every other C01 rule reads the
+    mask as a per-instance truth table, and this discharges that premise with the batch-axis engine of C04 on the
+    `action_mask` / `done` cells of `_step` and on the value of `get_action_mask` (a fleet size or a step flag read once for the
+    whole batch offers instance b what instance 0 may do)."""
+    from .C04 import batch_rows
+    batch_rows(ctx, "C01.w", envs=tuple(T.ENVS), meths=("_step", "get_action_mask"),
+               sink_ok=lambda cname, meth, sink: sink == "return" or sink in ("cell:action_mask", "cell:done"))
 
 
 def mtsp_agent_counter(ctx: Ctx, env: EnvA, rid: str = "C01.s"):
